@@ -105,6 +105,14 @@ fn main() {
     }
     let mut report = Report::new(&cli, "exploration", RULE);
     report.set_max_samples(10);
+    // `--progress 1`: timing lines on stderr (used to calibrate the Miri run)
+    let progress = cli.extra.contains_key("progress");
+    let t0 = std::time::Instant::now();
+    let tick = |what: &str| {
+        if progress {
+            eprintln!("[C05 progress] {:8.1}s {what}", t0.elapsed().as_secs_f64());
+        }
+    };
     if cli.prop != "C05" {
         report.inconclusive_fatal(&format!("vp-cipher only decides C05, not {}", cli.prop));
         std::process::exit(report.finish());
@@ -113,10 +121,12 @@ fn main() {
         report.inconclusive_fatal(&format!("reference cryptography failed its self test: {e}"));
         std::process::exit(report.finish());
     }
+    tick("reference self test done");
     if let Err(e) = run::self_check() {
         report.inconclusive_fatal(&format!("harness self check failed: {e}"));
         std::process::exit(report.finish());
     }
+    tick("harness self check done");
     report.assume("the inner transport never fails (no io::Error is injected); transport errors are outside the property's quantifier");
     report.assume("a caller enables encryption at a byte offset it has completely written/consumed (reads before the switch are bounded to that offset), as Connection does between Encryption Response and Login Success");
     report.assume("after Poll::Pending the caller may call again with any buffer; only bytes returned by Ready(Ok(n)) count as reported as written");
@@ -178,6 +188,9 @@ fn main() {
         for i in 0..total {
             let sc = wl.scenario(i);
             execute(&mut report, &sc, Some(i), &mut kinds);
+            if progress && (i % 10 == 9 || i + 1 == total) {
+                tick(&format!("{}/{total} scenarios, {} bytes judged after the switch", i + 1, report.counter("bytes judged after the switch")));
+            }
         }
     } else {
         let block = 128u64;
